@@ -4,6 +4,7 @@ Helper lemmas for C15 (SafeLearner prediction formats).  Property statements liv
 import CobaVerif.Model.C15
 import CobaVerif.Lemmas.C05
 import Mathlib.Tactic.NormNum
+import Mathlib.Tactic.Linarith
 
 namespace Coba.C15
 open PyVal
@@ -106,13 +107,15 @@ theorem possiblePmf_valid (t : Bool) (pmf as : List PyVal) (h : validPmf pmf as 
   cases hs : sumNums pmf with
   | none => simp [hs] at h2
   | some s =>
-    simp [hs] at h2
-    subst h2
-    have h0 : ((1 : Rat) - 1 ≤ 1 / 1000) := by norm_num
-    simp only [possiblePmf, items_mkSeq, h1, hs, h0, beq_self_eq_true, Bool.true_and, and_self, decide_true]
+    simp only [hs] at h2
+    simp only [possiblePmf, items_mkSeq, h1, hs, h2, beq_self_eq_true, Bool.true_and]
     exact h3
 
-
+/-- the sum of a valid PMF is positive -/
+theorem validPmf_sum_pos {pmf as : List PyVal} {s : Rat} (h : validPmf pmf as = true) (hs : sumNums pmf = some s) : 0 < s := by
+  simp only [validPmf, Bool.and_eq_true, hs, decide_eq_true_eq] at h
+  have := h.1.2.2
+  linarith
 
 theorem predFormat_PM (fx : Fixes) (t : Bool) (pmf as : List PyVal)
     (hne : as ≠ []) (hlrn : ∀ a ∈ as, isLrn a = false) (hv : validPmf pmf as = true)
@@ -2130,8 +2133,8 @@ theorem pmf_prob_reported' (s : Nat) (as pmf : List PyVal) (v : PyVal) (hv : v.i
     | none => simp [hq] at this
     | some q => exact ⟨q, rfl⟩
   obtain ⟨qs, h1, h2, h3, h4⟩ := toRats_of_valid pmf hnum
-  have hs1 : qs.sum = 1 := by
-    rw [h2] at hsum; simpa using hsum
+  have hs1 : 0 < qs.sum := by
+    simp only [h2, decide_eq_true_eq] at hsum; linarith [hsum.2]
   have hnn' : ∀ w ∈ qs, 0 ≤ w := by
     intro w hw
     obtain ⟨i, hi, hiw⟩ := List.getElem_of_mem hw
@@ -2142,7 +2145,7 @@ theorem pmf_prob_reported' (s : Nat) (as pmf : List PyVal) (v : PyVal) (hv : v.i
     subst this
     have := List.all_eq_true.mp hnn pmf[i] (List.getElem_mem hi')
     simpa [hq1] using this
-  have hpos : 0 < Coba.C05.sum qs := by rw [Coba.C05.sum_eq, hs1]; norm_num
+  have hpos : 0 < Coba.C05.sum qs := by rw [Coba.C05.sum_eq]; exact hs1
   obtain ⟨i, w, hc, hw, hwpos⟩ := Coba.C05.choicew_weight' s as.length qs (by rw [h3, hlen]) hnn' hpos
   have hi : i < qs.length := by
     by_contra hcon
